@@ -197,8 +197,8 @@ sig_seen(const char * sig)
 /* exact-size input blocks (alignment a in {0,1}) and canaried output blocks */
 #define CANARY 0xC3
 struct bigbuf { size_t k; uint8_t * p; };
-static uint8_t * in_small[2][520]; static struct bigbuf in_big[2][8];
-static uint8_t * out_small[520]; static struct bigbuf out_big[8];
+static uint8_t * in_small[2][520]; static struct bigbuf in_big[2][24];
+static uint8_t * out_small[520]; static struct bigbuf out_big[24];
 static uint8_t *
 blk_get(uint8_t ** small, struct bigbuf * big, size_t k, size_t extra_front, size_t extra_back)
 {
@@ -207,7 +207,7 @@ blk_get(uint8_t ** small, struct bigbuf * big, size_t k, size_t extra_front, siz
 		if (small[k] == NULL) { if (posix_memalign(&p, 16, extra_front + k + extra_back ? extra_front + k + extra_back : 1)) vf_engine_error("memalign"); small[k] = p; }
 		return (small[k] + extra_front);
 	}
-	for (i = 0; i < 8; i++) {
+	for (i = 0; i < 24; i++) {
 		if (big[i].p == NULL) { if (posix_memalign(&p, 16, extra_front + k + extra_back)) vf_engine_error("memalign"); big[i].p = p; big[i].k = k; }
 		if (big[i].k == k) return (big[i].p + extra_front);
 	}
